@@ -19,6 +19,12 @@ CHECKS = {
     'C15': dict(tech=SYMX, ref='3/C15',
                 text='Every assignment history up to the stated depth (each step assigns one type or any list of types, density and diameter, with fresh symbolic positive values; re-assignments included) is executed on the real Density/Diameter objects; after every step the solver proves pair=rho_a*rho_b, site, total=sum of assigned, sigma=(d_a+d_b)/2, volume=pi*d^3/6 and the reads Diameter[a], Diameter[a,b] for all values, and check() raises exactly while a type is unassigned. Bounded: 1-4 types, depth 1-3 (see evidence bounds).',
                 note='Trusted: numpy object arrays, z3. Histories longer than the bound are outside (the finite part of the state is enumerated, values are symbolic).'),
+    'C07': dict(tech=SYMX, ref='3/C07',
+                text='Real Domain objects built from dr or dk and driven through every setter sequence (dr=, dk=, length=) up to the stated depth with symbolic spacings are proven, attribute by attribute (r, k, dk, both coefficient arrays, long_r), equal to a fresh Domain(length, dr) and to r_i=(i+1)dr, k_j=(j+1)dk, dk*dr*length=pi; to_real(to_fourier(f))=f, to_fourier(to_real(F))=F and linearity are proven for all f,g,a,b,dr with exact algebraic DST weights for N=1..6; the MatrixArray versions for rank 1-3 (per-pair identical map, symmetry, flag flip, ValueError when already there, no trace after refusal); earlier transform results are not overwritten by later ones. Bounded: lengths 1-6 (setters 1-4), depth 2 (3 thorough); Real arithmetic.',
+                note='Trusted: dst stub = documented sine sums (differential-tested vs scipy each run; overwrite_x modelled as writing into and returning x), arange stub = documented length rule. The float behaviour of np.arange (grid length) is not covered by the Real model; see DESIGN.md.'),
+    'C08': dict(tech=SYMX, ref='3/C08',
+                text='Structural part only: for N=1..6 and Domains built from dr, from dk and after a re-assignment of dr/dk/length, the solver proves for all f, F and spacings that to_fourier(f)_j = 4*pi*dr*Sum_n r_n f_n sin(k_j(r_n-dr/2))/k_j and to_real(F)_i = dk/(2*pi^2 r_i)*Sum\'_n k_n F_n sin(k_n(r_i-dr/2)) on the harness\'s own grid, i.e. each direction separately is the half-cell-shifted Riemann sum of its continuous 3-D integral with prefactor 4*pi resp. 1/(2*pi^2) (compensating prefactor errors are refuted).',
+                note='The convergence statement (error <= C*dr, monotone under refinement, k->0 limit) is NOT decided: not encodable; O(dr) consistency follows from the proven Riemann-sum form by the textbook argument. sin is linked to exact algebraic values at rational multiples of pi.'),
 }
 
 NOT_YET = {}
